@@ -176,8 +176,8 @@ Proof.
   destruct o; cbn [step] in H; cbn [step_T].
   - exact (on_new_worker_TT _ _ (s, []) _ _ _ H).
   - destruct (find_proc _ w); [|discriminate]. exact (on_remove_worker_TT _ _ (s, []) _ _ _ _ _ _ H).
-  - exact (handle_submit_array_TT _ _ (s, []) _ _ _ _ _ _ _ _ _ (fun x Hx => Hx) H).
-  - destruct (bad_graph_rq _ _); [inversion H; subst; apply TT_refl|]. exact (handle_submit_graph_TT _ _ (s, []) _ _ _ _ _ (fun x Hx => Hx) H).
+  - destruct (bad_submit_lengths _ _); [inversion H; subst; apply TT_refl|]. exact (handle_submit_array_TT _ _ (s, []) _ _ _ _ _ _ _ _ _ (fun x Hx => Hx) H).
+  - destruct (bad_graph_rq _ _); [inversion H; subst; apply TT_refl|]. destruct (dead_dep _ _ _); [inversion H; subst; apply TT_refl|]. exact (handle_submit_graph_TT _ _ (s, []) _ _ _ _ _ (fun x Hx => Hx) H).
   - unfold handle_open in H. inversion H; subst. apply TT_refl.
   - unfold handle_close in H. cbn in H. destruct (find_job _ j) as [jb|]; [|inversion H; subst; apply TT_refl].
     destruct (j_open jb); [|inversion H; subst; apply TT_refl].
